@@ -24,8 +24,9 @@ EXPLANATION = (
     '<AsyncFd as OpTarget>::set_flags marks IOSQE_FIXED_FILE iff the descriptor is Direct; (R4b) '
     "IOSQE_FIXED_FILE qualifies position 4 only: whenever the AsyncFd's own descriptor is placed elsewhere "
     '(splice_fd_in) the operation must mark that position itself — known finding K6 for splice_to; (R5) '
-    'decoders take the count / buffer id from the OpReturn of this completion; (R6/R7) OpenOptions and '
-    'socket-option constants; (R8) returned socket addresses are decoded field by field the way they are '
+    'decoders take the count / buffer id from the OpReturn of this completion; (R6/R7) OpenOptions flag '
+    'constants per builder, the access-mode builders decided per access mode by a bit-mask transfer function '
+    '(determined bits must be exactly O_ACCMODE with the mode open(2) prescribes), and socket-option constants; (R8) returned socket addresses are decoded field by field the way they are '
     'encoded (C16.R1); (R9/R9b) returned metadata: accessor <-> statx field table, signed statx timestamps '
     'converted without losing the sign, FileType/Permissions/MetadataInterest bits vs <linux/stat.h>. That the '
     'kernel executes a request like the system call would is not decided.'
@@ -247,6 +248,16 @@ def r4_fixed_file(r, facts):
     r.require(ok, 'Kind::use_flags', 'set_flags does not OR IOSQE_FIXED_FILE into sqe.flags exactly on the Direct arm: %s' % ws, f.where())
     s = facts.fn('<SubmissionQueue as io_uring::op::OpTarget>::set_flags')
     r.require(not sqe.collect_writes(s, facts, sub_param=2), 'SubmissionQueue::set_flags', 'set_flags of a queue target writes to the submission', s.where())
+    # every closure of poll_inner that fills a submission (a second submit site, e.g. a "resubmit straight away" path,
+    # included) applies the target's flags afterwards
+    for c2 in facts.func_list:
+        if c2.kind == 'closure' and c2.path.startswith(life.POLL_INNER + '::{closure') and c2.path != life.SUBMIT_CLOSURE:
+            fills2 = [(loc, t) for loc, t in c2.calls() if t.get('callee_trait') == 'std::ops::Fn']
+            setf2 = [(loc, t) for loc, t in c2.calls() if (t.get('callee') or '').endswith('OpTarget::set_flags')]
+            if fills2:
+                r.inst('further submit closure %s' % c2.path, c2.where())
+                ok2 = len(setf2) == 1 and c2.dominates(fills2[0][0], setf2[0][0]) and c2.forward_paths_hit([Loc(0, 0)], c2.returns(), blockers=[setf2[0][0]]) is None
+                r.require(ok2, 'submit-closure/other:%s' % c2.path.rsplit('::', 1)[-1], 'a second submit site fills a submission without applying OpTarget::set_flags: a request re-issued there loses IOSQE_FIXED_FILE and addresses the regular descriptor with the same number', c2.where())
     c = facts.fn(life.SUBMIT_CLOSURE)
     fills = [(loc, t) for loc, t in c.calls() if t.get('callee_trait') == 'std::ops::Fn']
     setf = [(loc, t) for loc, t in c.calls() if (t.get('callee') or '').endswith('OpTarget::set_flags')]
@@ -431,6 +442,17 @@ def r5_decoders(r, facts):
                     r.inst('%s: %s(id=%s.., n=%s)' % (i['self'], short, str(ide)[:50], ne), f.where(loc))
                     r.require(okid, 'decoder:%s/%s-id' % (i['self'], short), 'pool buffer id does not come from this completion\'s flags', f.where(loc))
                     r.require(okn, 'decoder:%s/%s-n' % (i['self'], short), 'pool buffer length does not come from this completion\'s result', f.where(loc))
+            # ... and on every path: a decoder that initialises its buffer from the completion does so for every result,
+            # also for n == 0 (wrappers such as the read_n / recv_n counter learn the size of the transfer from this call:
+            # a skipped call leaves the previous size in place)
+            inits = [loc for loc, t in f.calls() if ((t.get('callee') or '').rsplit('::', 1)[-1] == 'set_init' and (t.get('callee_trait') or '').startswith('io::traits::BufMut'))
+                     or (t.get('callee') or '').rsplit('::', 1)[-1] in ('buffer_init', 'new_buffer')]
+            # (decoders that hand out a fresh pool buffer have an empty buffer as their legitimate other exit)
+            if inits and any((f.at(l).get('callee') or '').rsplit('::', 1)[-1] == 'set_init' for l in inits):
+                hit = f.forward_paths_hit([Loc(0, 0)], f.returns(), blockers=inits)
+                n += 1
+                r.inst('%s: every path initialises the buffer from the completion' % i['self'], f.where(inits[0]))
+                r.require(hit is None, 'decoder:%s/init-skipped' % i['self'], 'a path through the decoder returns the buffer without telling it how many bytes the kernel wrote (set_init / buffer_init skipped, e.g. for a zero-byte result): counting wrappers (read_n, recv_n) keep the size of the previous transfer', f.where(hit[0]) if hit else '')
             # count-returning decoders
             rty = f.local_ty(0)
             if rty == 'usize' or re.fullmatch(r'\(\w+, usize\)', rty):
@@ -853,3 +875,5 @@ def check(ctx):
     ctx.run('C13.R9b', 'returned metadata: FileType / Permissions accessors vs the stat(2) mode bits of <linux/stat.h>', r9b_mode_bits)
     from . import c16
     ctx.run('C13.R8', 'addresses returned by accept/recv_from/local_addr/peer_addr are decoded field by field the way they are encoded (C16.R1: same fields, same byte order, constructor argument order)', c16.r1_field_agreement)
+    from . import c14
+    ctx.run('C13.R10', 'vectored requests carry every buffer of an array/tuple exactly once and in order (=C14.R2)', c14.r2_order_coverage)
